@@ -49,9 +49,14 @@ class P:
         for _ in range(rng.choice([20, 60, 150, 300])):
             (a, tid), (t, o) = rng.choice(list(tpls.items()))
             k = rng.random()
-            if k < 0.7:       # decodable data of mixed sizes
+            if k < 0.68:      # decodable data of mixed sizes
                 sets = [g.enc_set(tid, b"".join(g.rand_record(t)[0] for _ in range(rng.choice([1, 1, 3, 10]))))
                         for _ in range(rng.choice([1, 1, 2]))]
+                p = g.enc_msg(sets)
+            elif k < 0.76:    # a set that can not be decoded (unknown template) next to one that can: non-fatal error AND records
+                sets = [g.enc_set(7777, bytes(rng.randrange(256) for _ in range(12))), g.enc_set(tid, g.rand_record(t)[0])]
+                if rng.random() < 0.5:
+                    sets.reverse()
                 p = g.enc_msg(sets)
             elif k < 0.8:     # template-only (re-announcement of the SAME definition: schedule independent)
                 p = g.enc_msg([g.enc_set(g.tpl_set_id(o), g.enc_tpl(t, o))])
